@@ -304,30 +304,42 @@ impl<F: Write + Seek> Directory<F> {
                 }
             };
         }
-        match ordering {
-            Ordering::Less => {
-                self.dir_entry_mut(prev_sibling_id).left_sibling = stream_id;
-                let mut sector =
-                    self.seek_within_dir_entry(prev_sibling_id, 68)?;
-                sector.write_le_u32(stream_id)?;
-            }
-            Ordering::Greater => {
-                self.dir_entry_mut(prev_sibling_id).right_sibling = stream_id;
-                let mut sector =
-                    self.seek_within_dir_entry(prev_sibling_id, 72)?;
-                sector.write_le_u32(stream_id)?;
-            }
+        // Write the new entry to the underlying file first, then the link
+        // that makes it reachable, and update the in-memory link only once
+        // the file has it.  If either write fails the slot is given back, so
+        // that the in-memory directory never gets ahead of the file (a retry
+        // then starts from scratch instead of finding an entry that exists
+        // in memory only).
+        let (link_owner_id, link_offset) = match ordering {
+            Ordering::Less => (prev_sibling_id, 68),
+            Ordering::Greater => (prev_sibling_id, 72),
             Ordering::Equal => {
                 debug_assert_eq!(prev_sibling_id, parent_id);
-                self.dir_entry_mut(parent_id).child = stream_id;
-                let mut sector = self.seek_within_dir_entry(parent_id, 76)?;
-                sector.write_le_u32(stream_id)?;
+                (parent_id, 76)
+            }
+        };
+        let written = self.write_dir_entry(stream_id).and_then(|()| {
+            let mut sector =
+                self.seek_within_dir_entry(link_owner_id, link_offset)?;
+            sector.write_le_u32(stream_id)
+        });
+        if let Err(err) = written {
+            *self.dir_entry_mut(stream_id) = DirEntry::unallocated();
+            return Err(err);
+        }
+        match ordering {
+            Ordering::Less => {
+                self.dir_entry_mut(link_owner_id).left_sibling = stream_id;
+            }
+            Ordering::Greater => {
+                self.dir_entry_mut(link_owner_id).right_sibling = stream_id;
+            }
+            Ordering::Equal => {
+                self.dir_entry_mut(link_owner_id).child = stream_id;
             }
         }
         // TODO: rebalance tree
 
-        // Write new entry to underyling file.
-        self.write_dir_entry(stream_id)?;
         Ok(stream_id)
     }
 
